@@ -728,6 +728,15 @@ def _bc_leaves(t, pre=()):
     return out
 
 
+def _bc_nodes(t, pre=()):
+    """the paths of the sub-bundles of a type, at every depth"""
+    out = []
+    for sub in t["subs"]:
+        out.append(pre + (sub["n"],))
+        out += _bc_nodes(sub["of"], pre + (sub["n"],))
+    return out
+
+
 def gen_bc(rng):
     """The port's bundle type `T`; the parent's bundle instances: `b0` of type T, `b1` of a type that holds a T as sub-bundle `inner`
     (next to other members); signals; and what is written onto the port: b0, a reference to b1.inner, or an anonymous bundle built
@@ -735,9 +744,11 @@ def gen_bc(rng):
     nested anonymous bundles), fields in any order — sometimes with a member left out or a whole bundle where a signal is needed."""
     while True:
         T = _bc_tree(rng, rng.choice([0, 1, 1, 2]), rng.choice([["x", "y", "z", "u", "v"], ["x", "x_y", "x_", "y", "y_x"], ["tx", "tx_aux", "tx_", "aux", "t"]]))
-        joined = ["_".join(pth) for pth, _ in _bc_leaves(T)]
+        joined = ["_".join(pth) for pth, _ in _bc_leaves(T)] + ["_".join(pth) for pth in _bc_nodes(T)]
         if len(set(joined)) == len(joined):
-            break  # (two leaf paths that join to one name get a name invented for them: C05's business, not this stream's)
+            break  # (two paths that join to one name — two leaves, or a leaf and a sub-bundle, whose instance `s_<path>` stands next to the
+            #          flattened members — get a name invented for them: C05's business, not this stream's; a leaf `tx.aux` next to a
+            #          sub-bundle `tx_aux` slipped through until a thorough run drew it)
     wrap = {"sigs": [{"n": "k", "w": 1, "port": False, "dir": "none", "src": None, "dest": None}],
             "subs": [{"n": "inner", "flip": rng.random() < 0.5, "role": None, "of": T}]}
     subtypes = {}   # a bundle instance per sub-bundle type of T, for use as a member
